@@ -34,9 +34,14 @@ const (
 	CancelBefore     // caller's context is cancelled before the peer runs
 	CancelAfter      // ... after the peer ran (response lost)
 	Delay            // fake-clock sleep of D before the peer runs
+	// StaleResponse: the request is lost and what the caller reads is a duplicate of
+	// the previous response on this connection (a duplicated response on a
+	// keep-alive connection is read as the answer to the next request). Without a
+	// previous response it is a lost request.
+	StaleResponse
 )
 
-var faultNames = [...]string{"none", "drop-request", "drop-response", "duplicate", "duplicate-second", "truncate-request", "truncate-response", "cancel-before", "cancel-after", "delay"}
+var faultNames = [...]string{"none", "drop-request", "drop-response", "duplicate", "duplicate-second", "truncate-request", "truncate-response", "cancel-before", "cancel-after", "delay", "stale-response"}
 
 func (k FaultKind) String() string { return faultNames[k] }
 
@@ -369,8 +374,18 @@ func (t *Transport) RoundTrip(req *http.Request) (*http.Response, error) {
 	if err := req.Context().Err(); err != nil {
 		return fail(err)
 	}
-	if f.Kind == DropRequest {
+	if f.Kind == DropRequest || (f.Kind == StaleResponse && t.LastWire == nil) {
 		return fail(fmt.Errorf("%w: request lost", ErrConn))
+	}
+	if f.Kind == StaleResponse {
+		if lazy {
+			closeBody()
+		}
+		prev := t.LastWire
+		wr := &Response{Status: prev.Status, Header: prev.Header.Clone(), Body: prev.Body, DeclaredLen: prev.DeclaredLen, BodyErr: prev.BodyErr}
+		ex.Status = wr.Status
+		ex.RespHeader = wr.Header.Clone()
+		return t.build(req, wr), nil
 	}
 
 	h := t.Handler
